@@ -1,5 +1,6 @@
 import Proofs.Lemmas.ConvGen
 import Proofs.Lemmas.ConvReg
+import Proofs.Lemmas.ConvBuf
 import Generated.C17GoKinds
 /-!
 # C17 — values cross the Go boundary unchanged in both directions
@@ -22,7 +23,7 @@ the sized-integer clauses were `form := .cast`, so `gen_exact` was false (`Conve
 -/
 namespace C17
 open Model.Conv Spec.Conv Proofs.Conv Proofs.ConvReg
-open Generated.C17GoKinds (table tableMethod outTable outTableMethod gen shapeChanged memos)
+open Generated.C17GoKinds (table tableMethod outTable outTableMethod gen shapeChanged memos callPathWrites)
 
 /-! ### obligations on the regenerated facts -/
 
@@ -443,6 +444,69 @@ theorem C17_name_keyed_memo_counterexample :
   revert this
   decide
 
+/-! ### several calls of one callee in flight at once (round 6: `Model.ConvBuf`)
+
+`spawn`ed closures, HTTP handlers and re-entrant conversions put several calls of ONE registered
+callee between their first `convertToGoValue` and their `reflect.Value.Call` at the same time. The
+argument list is filled slot by slot; a schedule is any list of caller ids. -/
+
+open Model.ConvBuf in
+/-- **one argument list per call in flight** (`bufOf` injective — the code as it is: `args := make(…)`
+inside `Call`): under EVERY interleaving of ANY number of callers, nested or concurrent, of any arity,
+whatever a caller's Go code receives is exactly what that caller passed, position by position -/
+theorem C17_private_buffers_exact {α : Type} (bufOf : Nat → Nat) (hinj : ∀ a b, bufOf a = bufOf b → a = b)
+    (args : Nat → List α) (n : Nat) (sched : List Nat) (c : Nat) (r : List (Option α))
+    (h : (run bufOf args n sched).recv c = some r) : r = passed args n c :=
+  Proofs.ConvBuf.run_private_exact bufOf hinj args n sched c r h
+
+open Model.ConvBuf in
+/-- **negation witness: an argument list kept per registration** (`rf.args`, `rm.args`, a package-level
+scratch slice: `bufOf = fun _ => 0`). Two callers of a two-parameter callee, caller `c` passes
+`(c+1, c+1)`; schedule: 0 writes slot 0, 1 writes slot 0, 0 writes slot 1, 0 invokes — caller 0's Go code
+receives `(2, 1)`: the first value is one the calling script never passed. The harness replays this
+schedule (and every other interleaving) on the real wrappers with gated argument values. -/
+theorem C17_shared_buffer_counterexample :
+    ¬ (∀ (args : Nat → List Nat) (n : Nat) (sched : List Nat) (c : Nat) (r : List (Option Nat)),
+        (run (fun _ => 0) args n sched).recv c = some r → r = passed args n c) := by
+  intro h
+  have := h (fun c => [c + 1, c + 1]) 2 [0, 1, 0, 0] 0 [some 2, some 1] (by decide)
+  revert this
+  decide
+
+open Model.ConvBuf in
+/-- the same list is invisible to every stream that makes its calls one after the other from one
+goroutine: a re-entrant schedule is needed as well (0 writes slot 0, then — inside the conversion of its
+second argument — a complete call 1, then 0 goes on) -/
+theorem C17_shared_buffer_reentrant_counterexample :
+    (run (fun _ => 0) (fun c => [c + 1, c + 1]) 2 [0, 1, 1, 1, 0, 0]).recv 0 = some [some 2, some 1] ∧
+    (run (fun _ => 0) (fun c => [c + 1, c + 1]) 2 (sequential 2 [0, 1])).recv 0 = some [some 1, some 1] ∧
+    (run (fun _ => 0) (fun c => [c + 1, c + 1]) 2 (sequential 2 [0, 1])).recv 1 = some [some 2, some 2] := by
+  decide
+
+/-- call-path writes that have been looked at and found to be the call's own (none on the pinned tree) -/
+def knownCallPathWrites : List String := []
+
+/-- the call-path writes of the source that nobody has looked at -/
+def unexplainedCallPathWrites : List String :=
+  callPathWrites.filter (fun w => !knownCallPathWrites.contains w)
+
+/-- **obligation `callPathWrites ⊆ Known`**: while a call is served, no function of
+`runtime/reflect_*.go` writes a receiver field or a package-level variable — directly, through an
+aliasing local (`args := rm.args; args[i] = …`), by `append` / `copy` into one, or by a non-reader
+method call on one. Regenerated on every run (`extract/c17/callpath.go`). -/
+theorem callPath_private : unexplainedCallPathWrites = [] := by decide
+
+open Model.ConvBuf in
+/-- with the call-path facts the source has now, every caller's Go code receives exactly what it
+passed under every interleaving -/
+theorem C17_concurrent_exact_now {α : Type} (args : Nat → List α) (n : Nat) (sched : List Nat) (c : Nat)
+    (r : List (Option α)) (h : (run (bufPolicy unexplainedCallPathWrites) args n sched).recv c = some r) :
+    r = passed args n c := by
+  have hp : bufPolicy unexplainedCallPathWrites = id := by
+    unfold bufPolicy; rw [callPath_private]; rfl
+  rw [hp] at h
+  exact C17_private_buffers_exact id (fun _ _ e => e) args n sched c r h
+
 /-! ### non-vacuity -/
 
 -- a three-parameter signature with a defined int64 type, a string and a float64; all hypotheses of
@@ -496,5 +560,13 @@ example : (runMemo (nowCfg nullPrim) demoU KeyBy.meth.key [] [] demoHist).map (f
     = [none, none, some false, some true] := by decide
 example : memosSound [⟨"reflectMethodParams.Store(rm.name, …)", .meth, .perCallee⟩] = false := by decide
 example : memosSound [⟨"ctorParams.Store(rc.instanceType, …)", .owner, .perOwner⟩] = true := by decide
+
+-- three callers of a three-parameter callee with private lists, fully interleaved: each receives its own
+example : (Model.ConvBuf.run id (fun c => [10 * c, 10 * c + 1, 10 * c + 2]) 3 [0, 1, 2, 2, 1, 0, 0, 1, 2, 2, 0, 1]).recv 1
+    = some [some 10, some 11, some 12] := by decide
+example : Model.ConvBuf.passed (fun c => [10 * c, 10 * c + 1, 10 * c + 2]) 3 1 = [some 10, some 11, some 12] := by decide
+-- the facts of the seeded tree C17-shared-args-buffer fail the obligation
+example : (["runtime/reflect_register.go (*ReflectFunction).Call: args[i] = … [args = rf.args]"].filter
+    (fun w => !knownCallPathWrites.contains w)) ≠ [] := by decide
 
 end C17
